@@ -164,10 +164,11 @@ def body_aggregation(E, cfg):
 def aggregation_configs(restrict):
     def f(tier):
         modes = ["all", "best"] if tier == "quick" else list(multipass.MODES)
-        cfgs = [dict(KR=6, KQ=6, nq=2, nrefs=1, first=[0, 1, 2], second=[0, 1, 2], restrict=restrict, modes=modes),
+        cfgs = [dict(KR=6, KQ=6, nq=2, nrefs=1, first=[0, 1, 2] if tier != "quick" else [0, 1], second=[0, 1, 2], restrict=restrict, modes=modes),
                 dict(KR=6, KQ=6, nq=1, nrefs=2, first=[1, 2], second=[0, 1, 5], restrict=restrict, modes=modes)]
+        cfgs.append(dict(KR=6, KQ=6, nq=2, nrefs=2, first=[1, -1], second=[0, 1], restrict=restrict, modes=modes))
         if tier != "quick":
-            cfgs.append(dict(KR=6, KQ=6, nq=2, nrefs=2, first=[1, 3], second=[0, 1, 5], restrict=restrict, swap_ids=True))
+            cfgs.append(dict(KR=6, KQ=6, nq=2, nrefs=2, first=[1, 3, -1], second=[0, 1, 5], restrict=restrict, swap_ids=True))
         return cfgs
     return f
 
@@ -216,10 +217,10 @@ def body_selection(E, cfg):
 
 def selection_unit():
     return Unit(name="reference-order-invariance-of-selection", body=body_selection,
-                configs=lambda tier: [dict(initial_kinds=["empty", 0, 1, 2] if tier != "quick" else ["empty", 1, 2], refined_peaks=[0, 1],
+                configs=lambda tier: [dict(initial_kinds=["empty", 1], refined_peaks=[1] if tier == "quick" else [0, 1],
                                            row_has_pairs=[True], nrefs=2, nq=1, peaksCount=k) for k in ((1, 2) if tier == "quick" else (1, 2, 3))],
                 functions=orch.ORCH_FUNCTIONS, stubs=orch.ORCH_STUBS,
-                bounds="2 references x 2 strands with 0..2 seeds each, peaksCount 1..2 (3 in thorough)",
+                bounds="2 references x 2 strands with 0..1 seed each (<= 4 seeds), peaksCount 1..2 (3 in thorough)",
                 nontrivial_rule="the query has at least two seeds",
                 assumptions=["seed scores pairwise distinct and candidate confidences pairwise distinct (exact ties make the stable sort "
                              "order observable; the statement excludes nothing about ties, so they are left outside the claim)"],
@@ -265,7 +266,7 @@ def body_sequence_state(E, cfg):
     from src.correlation.sequence_generator import SequenceGenerator
     res, radius, n = cfg["res"], cfg["radius"], cfg["n"]
     maps = []
-    length = E.int("sharedLength")
+    length = 100000     # concrete: a per-process cache would hash it
     for m in range(2):
         ks = []
         for i in range(n):
